@@ -1,13 +1,18 @@
 """C12 -- bounded work per request: resolution always terminates within its budgets.
 
-Thin entry point: the ledger state-machine core lives in c12_core.run_core(ctx); the lead merges the
-ResolveWork / scripted-topology driver here.
+Core tier    : checks/c12_core.py (Ledger.tla on the real work ledger: call-order replay + concurrent stress traces).
+Pipeline tier: checks/c12_topo.py (ResolveWork.tla topologies concretised into scripted authorities; the servers count
+               what each client query cost).
 """
 import c12_core
+import c12_topo
 
 
 def run(ctx, replay):
     if replay:
+        if c12_topo.replay_topo(ctx, replay):
+            return
         c12_core.replay_core(ctx, replay)
         return
     c12_core.run_core(ctx)
+    c12_topo.run_topo(ctx)
